@@ -46,6 +46,21 @@ def enclosing_function(root, node):
     return best
 
 
+
+def true_edge(t, is_target):
+    """the outcome ('true' / 'false') of test `t` on which the call selected by `is_target` inside it is known to have returned True; None if neither"""
+    if isinstance(t, ast.Call) and is_target(t):
+        return 'true'
+    if isinstance(t, ast.UnaryOp) and isinstance(t.op, ast.Not):
+        r_ = true_edge(t.operand, is_target)
+        return None if r_ is None else ('false' if r_ == 'true' else 'true')
+    if isinstance(t, ast.BoolOp):
+        rs = [true_edge(v_, is_target) for v_ in t.values]
+        if isinstance(t.op, ast.And) and 'true' in rs: return 'true'        # every conjunct holds on the true edge
+        if isinstance(t.op, ast.Or) and 'false' in rs: return 'false'      # every disjunct fails on the false edge
+    return None
+
+
 def run(chk):
     repo = Repo(chk.repo)
     m = repo.by_path('TidalPy/utilities/multiprocessing/multiprocessing.py')
@@ -125,9 +140,12 @@ def run(chk):
 
     # ---- R18.2b skip => marker present: the append is only reachable through the marker-present edge of the guard
     H = G.copy()
-    positive = 'not' not in ast.unparse(guard_if[1].test).split('isfile')[0]
+
+    edge_kind = true_edge(guard_if[1].test, lambda c_: 'isfile' in ast.unparse(c_.func))
+    if edge_kind is None:
+        raise AnalysisError(f'{m.where(guard_if[1])}: cannot tell on which outcome of `{ast.unparse(guard_if[1].test)[:80]}` the success marker is known to exist')
     for (u, v, dct) in list(H.out_edges(guard_if[0], data=True)):
-        if dct['kind'] == ('true' if positive else 'false'):
+        if dct['kind'] == edge_kind:
             H.remove_edge(u, v)
     ok = not nx.has_path(H, ENTRY, sa_node)
     chk.ob('R18.2', 'a case is put on the skip list only when its success marker exists (guard dominance)', ok, 'skip append reachable without the marker test succeeding', m.where(sa_stmt), method='CFG edge-removal reachability')
@@ -220,11 +238,9 @@ def run(chk):
                 if isinstance(gst, ast.If):
                     for c in ast.walk(gst.test):
                         if isinstance(c, ast.Call) and ast.unparse(c.func).split('.')[-1] in ('isfile', 'exists') and marker in path_strings(c, scopes):
-                            pos = 'not' not in ast.unparse(gst.test).split(ast.unparse(c.func))[0]
+                            present = true_edge(gst.test, lambda c_, c=c: c_ is c)      # outcome on which the marker is known to exist
                             for (u, v, d2) in list(EG.out_edges(gn, data=True)):
-                                if d2['kind'] == ('false' if pos else 'true'):
-                                    pass
-                                else:
+                                if present is not None and d2['kind'] == present:
                                     EG.remove_edge(u, v)
             # after removing every marker-present edge the read must be unreachable
             reach = tgt is not None and nx.has_path(EG, ENTRY, tgt)
